@@ -14,6 +14,7 @@ from pathlib import Path
 from ruamel.yaml.comments import (
     CommentedMap, CommentedSet, CommentedSeq, TaggedScalar
 )
+from ruamel.yaml.scalarbool import ScalarBoolean
 
 from yamlpath.common import Anchors, Nodes, Parsers
 from yamlpath.wrappers import ConsolePrinter, NodeCoords
@@ -592,7 +593,11 @@ class Merger:
                     (lhs_anchor.value == rhs_anchor.value)
                     and (lhs_anchor.tag.value == rhs_anchor.tag.value))
             else:
-                anchors_match = lhs_anchor == rhs_anchor
+                # Python deems True == 1 but a Boolean is not a number
+                anchors_match = (
+                    lhs_anchor == rhs_anchor
+                    and isinstance(lhs_anchor, (bool, ScalarBoolean))
+                    == isinstance(rhs_anchor, (bool, ScalarBoolean)))
 
             if not anchors_match:
                 if conflict_mode is AnchorConflictResolutions.RENAME:
